@@ -98,6 +98,14 @@ impl AttributeParser {
     }
 
     fn parse_group(&mut self, name: Ident, group: TokenStream) -> Nested {
+        // Consume the separator following the group, like all the other forms do,
+        // so that `name(...)` does not have to be the last argument.
+        let tail = self.collect_tail(Empty);
+
+        if !tail.is_empty() {
+            return Nested::Unexpected(tail);
+        }
+
         Nested::Named(name, NestedValue::Group(group))
     }
 
